@@ -35,6 +35,8 @@ func checkC01(w *World, r *Report) {
 	c01WsWrite(w, r)
 	c01WriteCounts(w, r)
 	c01WsReadLimit(w, r)
+	r.Rule("R01.10", "a deadline armed on a connection is disarmed in both directions before the connection lives on as a session", 1)
+	ruleDeadlinePairing(w, r, "R01.10")
 	ruleLocksetConsistent(w, r, "R01.8", func(p string) bool { return connPkgs(p) || p == modPath+"/internal/streams/dns/util" }, "a reader overlapping a writer of the same buffer sees it half-updated: bytes delivered twice, lost or torn")
 	ruleLoopVarEscape(w, r, "R01.7", connPkgs, "the goroutine started for connection N reads the variable after the loop stored connection N+1 into it: N is never served and N+1 is served twice, its bytes torn between two handlers")
 }
@@ -373,6 +375,10 @@ func c01ReadAhead(w *World, r *Report) {
 					continue
 				}
 				if fcal := sCallee(x); fcal != nil && fcal.Pkg() != nil && strings.Contains(fcal.Pkg().Path(), "logrus") {
+					continue
+				}
+				// address accessors consume no bytes and bypass no buffer
+				if x.Common().IsInvoke() && x.Common().Value == ssa.Value(raw) && (x.Common().Method.Name() == "RemoteAddr" || x.Common().Method.Name() == "LocalAddr") {
 					continue
 				}
 				bad = fmt.Sprintf("%s: the raw carrier is used again after being wrapped (%s)", w.Pos(x.Pos()), describeCall(x))
